@@ -17,6 +17,7 @@ import Nitime.Lemmas.CohC
 import Nitime.Lemmas.CauchySchwarz
 import Mathlib.Analysis.MeanInequalities
 import Mathlib.LinearAlgebra.Matrix.Adjugate
+import Nitime.Props.C06
 
 open Finset ComplexConjugate
 open Nitime.Coh
@@ -278,10 +279,10 @@ theorem getD_map_mul (a : ℝ) (xs : List ℝ) (i : ℕ) : (xs.map (a * ·)).get
 
 theorem F_scale (a : ℝ) (w x : List ℝ) (N step k s : ℕ) :
     F w (x.map (a * ·)) N step k s = (a : ℂ) * F w x N step k s := by
-  unfold F segFft
-  rw [sumRange_eq, sumRange_eq, mul_sum]
+  unfold F
+  rw [segFft_eq, segFft_eq, mul_sum]
   refine sum_congr rfl fun j _ => ?_
-  simp only [c_mul, getK_map_ofReal, getD_map_mul]
+  simp only [getK_map_ofReal, getD_map_mul]
   push_cast; ring
 
 /-- scaling the first channel by a real a scales the cross-spectrum by a -/
@@ -376,6 +377,58 @@ theorem coherency_bavg_le_one (fxy fxx fyy : ℕ → ℂ) (lb ub : ℕ)
     calc ∑ t ∈ range n, ‖coherencySpec (fxy (lb + t)) (fxx (lb + t)) (fyy (lb + t))‖
         ≤ ∑ _t ∈ range n, (1 : ℝ) := sum_le_sum fun t _ => hR t
       _ = n := by simp
+
+/-! ### band averages of the Welch estimate itself -/
+
+/-- per-bin Cauchy–Schwarz bound of the Welch spectra in the form the band theorems need -/
+theorem welch_cs (w xi xj : List ℝ) {Fs : ℝ} (N step k : ℕ) (hlen : xj.length = xi.length) :
+    Complex.normSq (welchBin (w.map (↑)) (Fs : ℂ) N step (xi.map (↑)) (xj.map (↑)) k)
+      ≤ (cW w Fs N step xi.length k * ∑ s ∈ range (nSeg xi.length N step), Complex.normSq (F w xi N step k s))
+        * (cW w Fs N step xj.length k * ∑ s ∈ range (nSeg xj.length N step), Complex.normSq (F w xj N step k s)) := by
+  rw [welchBin_eq, hlen, Complex.normSq_mul, Complex.normSq_ofReal]
+  set c := cW w Fs N step xi.length k
+  have hcs := cs_range (nSeg xi.length N step) (F w xi N step k) (F w xj N step k)
+  calc c * c * Complex.normSq (∑ s ∈ range (nSeg xi.length N step), F w xi N step k s * conj (F w xj N step k s))
+      ≤ c * c * ((∑ s ∈ range (nSeg xi.length N step), Complex.normSq (F w xi N step k s)) *
+          (∑ s ∈ range (nSeg xi.length N step), Complex.normSq (F w xj N step k s))) :=
+        mul_le_mul_of_nonneg_left hcs (mul_self_nonneg c)
+    _ = _ := by ring
+
+/-- **band-averaged coherence of the Welch estimate ≤ 1** (`coherence_bavg` on `get_spectra(welch)`),
+    every band [lb, ub), every pair of real channels -/
+theorem welch_coherence_bavg_le_one (w xi xj : List ℝ) {Fs : ℝ} (hFs : 0 ≤ Fs) (N step lb ub : ℕ)
+    (hlen : xj.length = xi.length) :
+    (coherenceBavg (fun k => welchBin (w.map (↑)) (Fs : ℂ) N step (xi.map (↑)) (xj.map (↑)) k)
+        (fun k => welchBin (w.map (↑)) (Fs : ℂ) N step (xi.map (↑)) (xi.map (↑)) k)
+        (fun k => welchBin (w.map (↑)) (Fs : ℂ) N step (xj.map (↑)) (xj.map (↑)) k) lb ub).re ≤ 1 := by
+  simp only [welchBin_self]
+  exact coherence_bavg_le_one _ _ _ lb ub
+    (fun k => mul_nonneg (cW_nonneg w hFs ..) (sum_nonneg fun _ _ => Complex.normSq_nonneg _))
+    (fun k => mul_nonneg (cW_nonneg w hFs ..) (sum_nonneg fun _ _ => Complex.normSq_nonneg _))
+    (fun k => welch_cs w xi xj N step k hlen)
+
+/-- |coherency| ≤ 1 from the Cauchy–Schwarz bound -/
+theorem coherencySpec_norm_le_one (z : ℂ) {p q : ℝ} (hp : 0 ≤ p) (hq : 0 ≤ q) (h : Complex.normSq z ≤ p * q) :
+    ‖coherencySpec z (p : ℂ) (q : ℂ)‖ ≤ 1 := by
+  rw [coherencySpec_real z hp hq, norm_div, Complex.norm_real, Real.norm_eq_abs,
+    abs_of_nonneg (Real.sqrt_nonneg _)]
+  apply div_le_one_of_le₀ _ (Real.sqrt_nonneg _)
+  rw [Complex.norm_def]
+  exact Real.sqrt_le_sqrt h
+
+/-- **band-averaged coherency of the Welch estimate has magnitude ≤ 1** (`coherency_bavg`) -/
+theorem welch_coherency_bavg_le_one (w xi xj : List ℝ) {Fs : ℝ} (hFs : 0 ≤ Fs) (N step lb ub : ℕ)
+    (hlen : xj.length = xi.length) :
+    ‖coherencyBavg (fun k => welchBin (w.map (↑)) (Fs : ℂ) N step (xi.map (↑)) (xj.map (↑)) k)
+        (fun k => welchBin (w.map (↑)) (Fs : ℂ) N step (xi.map (↑)) (xi.map (↑)) k)
+        (fun k => welchBin (w.map (↑)) (Fs : ℂ) N step (xj.map (↑)) (xj.map (↑)) k) lb ub‖ ≤ 1 := by
+  apply coherency_bavg_le_one
+  intro t
+  simp only [welchBin_self]
+  exact coherencySpec_norm_le_one _
+    (mul_nonneg (cW_nonneg w hFs ..) (sum_nonneg fun _ _ => Complex.normSq_nonneg _))
+    (mul_nonneg (cW_nonneg w hFs ..) (sum_nonneg fun _ _ => Complex.normSq_nonneg _))
+    (welch_cs w xi xj N step _ hlen)
 
 /-! ### partial coherence -/
 
@@ -657,6 +710,59 @@ theorem mt_self_coherence_one (N nt : ℕ) (tx wx : List (List ℂ)) (k : ℕ)
   congr 1
   have h1 : P / Dx * d ≠ 0 := (mul_pos (div_pos hP hD) hd).ne'
   exact div_self (mul_ne_zero h1 h1)
+
+/-! ### coherence ≤ 1 for the estimators of the spectral model (C04/C06), from the data
+
+`coherence(x, csd_method)` applies `coherence_spec` to the matrix `get_spectra` returns.  C06 proves that
+the multitaper, periodogram and (completed) Welch matrices of the spectral model are Gram kernels
+`c·Σ_t u_i(t)·conj u_j(t)` computed from the time-domain data (tapers / adaptive weights given as data);
+Cauchy–Schwarz over t then bounds the coherence of every pair at every bin. -/
+
+/-- coherence of any Gram kernel with non-negative scale is ≤ 1 -/
+theorem gram_coherence_le_one {c : ℝ} (hc : 0 ≤ c) (T : ℕ) (u : ℕ → ℕ → ℂ) (i j : ℕ) :
+    (coherenceSpec (Nitime.Gram.gramK c T u i j) (Nitime.Gram.gramK c T u i i) (Nitime.Gram.gramK c T u j j)).re ≤ 1 := by
+  rw [coherenceSpec_eq, Nitime.Gram.gramK_diag, Nitime.Gram.gramK_diag]
+  unfold Nitime.Gram.gramK
+  simp only [Complex.ofReal_re, Complex.normSq_mul, Complex.normSq_ofReal]
+  have hcs := cs_range T (u i) (u j)
+  have hP : 0 ≤ ∑ t ∈ range T, Complex.normSq (u i t) := sum_nonneg fun _ _ => Complex.normSq_nonneg _
+  have hQ : 0 ≤ ∑ t ∈ range T, Complex.normSq (u j t) := sum_nonneg fun _ _ => Complex.normSq_nonneg _
+  apply div_le_one_of_le₀ _ (mul_nonneg (mul_nonneg hc hP) (mul_nonneg hc hQ))
+  calc c * c * Complex.normSq (∑ t ∈ range T, u i t * conj (u j t))
+      ≤ c * c * ((∑ t ∈ range T, Complex.normSq (u i t)) * (∑ t ∈ range T, Complex.normSq (u j t))) :=
+        mul_le_mul_of_nonneg_left hcs (mul_self_nonneg c)
+    _ = _ := by ring
+
+/-- **multitaper coherence ≤ 1 from the data**: `coherence(x, multi_taper_csd)` with the estimator of
+    the spectral model (`multiTaperCsdAt`: de-mean, taper, DFT, weight — fixed or adaptive weights given as
+    data — pair loop, Hermitian completion), every pair, every bin -/
+theorem mt_csd_coherence_le_one {N : ℕ} (tw : ℕ → ℂ) {Fs : ℝ} (hFs : 0 < Fs) (n : ℕ) (os : Bool) (T : ℕ)
+    (h : ℕ → ℕ → ℝ) (w : ℕ → ℕ → ℕ → ℝ) (x : ℕ → ℕ → ℂ) (i j k : ℕ) :
+    (coherenceSpec (Nitime.C04.multiTaperCsdAt tw Fs n N os T h w x i j k)
+        (Nitime.C04.multiTaperCsdAt tw Fs n N os T h w x i i k)
+        (Nitime.C04.multiTaperCsdAt tw Fs n N os T h w x j j k)).re ≤ 1 := by
+  simp only [Nitime.C06.Props.multiTaperCsd_is_gram]
+  exact gram_coherence_le_one (Nitime.C06.Props.mtC_nonneg hFs os k) T _ i j
+
+/-- **periodogram coherence ≤ 1 from the data** (`periodogramCsdAt` of the spectral model) -/
+theorem periodogram_csd_coherence_le_one {N : ℕ} (tw : ℕ → ℂ) {Fs : ℝ} (hFs : 0 < Fs) (n : ℕ) (os : Bool)
+    (x : ℕ → ℕ → ℂ) (i j k : ℕ) :
+    (coherenceSpec (Nitime.C04.periodogramCsdAt tw Fs n N os x i j k)
+        (Nitime.C04.periodogramCsdAt tw Fs n N os x i i k)
+        (Nitime.C04.periodogramCsdAt tw Fs n N os x j j k)).re ≤ 1 := by
+  simp only [Nitime.C06.Props.periodogramCsd_is_gram]
+  exact gram_coherence_le_one (Nitime.C06.Props.pcC_nonneg hFs n os k) 1 _ i j
+
+/-- **Welch coherence ≤ 1 for the Welch model of the spectral builder** (`welchCompletedAt`, complex input
+    and two-sided output included) — the same statement as `coherence_le_one`, about the other, independently
+    written model of `get_spectra(welch)` -/
+theorem welch_completed_coherence_le_one {N : ℕ} (tw : ℕ → ℂ) {Fs : ℝ} (hFs : 0 < Fs) (n nov : ℕ) (os : Bool)
+    (win : ℕ → ℝ) (x : ℕ → ℕ → ℂ) (i j m : ℕ) :
+    (coherenceSpec (Nitime.C06.welchCompletedAt tw Fs n N nov os win x i j m)
+        (Nitime.C06.welchCompletedAt tw Fs n N nov os win x i i m)
+        (Nitime.C06.welchCompletedAt tw Fs n N nov os win x j j m)).re ≤ 1 := by
+  simp only [Nitime.C06.Props.welchCompleted_is_gram]
+  exact gram_coherence_le_one (Nitime.C06.Props.wC_nonneg hFs n nov os win m) _ _ i j
 
 /-! ### a witness where all of the x–y coupling comes from the common cause
 
